@@ -435,7 +435,9 @@ func UnmarshalError(r xml.TokenReader) (Error, error) {
 	iter := xmlstream.NewIter(r)
 	for iter.Next() {
 		start, p := iter.Current()
-		if start.Name.Local != "error" {
+		// Children that are not elements (eg. whitespace or other character data
+		// between the payloads) have no start element.
+		if start == nil || start.Name.Local != "error" {
 			continue
 		}
 
